@@ -233,3 +233,192 @@ Example dpop_all_schedules_nonvacuous :
   dcop_cost ex_dcop [(0, 0); (1, 1); (2, 0)] = 1 /\
   map (dcop_cost ex_dcop) (ext ex_dcop [0; 1; 2] []) = [6; 9; 5; 1; 3; 8; 3; 6; 2; 4; 6; 11].
 Proof. vm_compute. repeat split; reflexivity. Qed.
+
+(* ================================================================== *)
+(*  END TO END (C01 x C17): DPOP on the pseudo-tree pydcop builds        *)
+(* ================================================================== *)
+(* The hypothesis dpop_check of dpop_all_schedules is DERIVED, for every DCOP, from what C17 proves
+   about the model of the real pseudo-tree builder (M_PseudoTree.build = build_computation_graph).
+     rdcop            a DCOP without tree: objective, variables (dcop.variables order), domain sizes,
+                      variable costs, constraints (dcop.constraints order, id = position)
+     graph_of R       the constraint graph the builder receives
+     dpop_of_built R t  the input of the DpopAlgo objects for tree t: per node parent / children /
+                      pseudo-parents / pseudo-children / node.constraints, as __init__ reads them
+     dpop_of R        = dpop_of_built R (tree returned by the builder model on graph_of R)
+     wf_rdcop R       := wf_graph (graph_of R)  (distinct variables; a constraint does not list a
+                      variable twice and ranges over the variables)
+                      /\ every variable has a non-empty domain /\ no constraint has an empty scope
+   No hypothesis on the tree, none on the shape of the cost tables (out-of-shape entries read 0 in
+   the model), none on the schedule. *)
+From PyDcop Require Import M_PseudoTree M_PseudoTree2 P_PseudoTree P_PseudoTree3 M_DpopBuilt
+  P_DpopBuilt P_DpopBuilt2 P_DpopBuilt3.
+
+Theorem wf_rdcopb_sound : forall R, wf_rdcopb R = true -> wf_rdcop R.
+Proof. exact wf_rdcopb_sound_l. Qed.
+
+(* the ownership filter of DpopAlgo.__init__ (drop every constraint that mentions a child or a
+   pseudo-child) keeps constraint k at node x iff x is THE LOWEST node of k's scope in the built
+   tree: every other variable of the scope is a proper ancestor of x *)
+Theorem ownership_lowest : forall R, wf_rdcop R ->
+  forall roots t, M_PseudoTree.build (graph_of R) = Some (roots, t) ->
+  forall x k, In k (owned (dpop_of_built R t) x) <->
+    exists sc, scope_of (graph_of R) k = Some sc /\ In x sc /\ forall b, In b sc -> b = x \/ anc t b x.
+Proof. exact built_lowest_l. Qed.
+
+(* ... hence every constraint of the DCOP is kept by exactly one computation *)
+Theorem ownership_partition : forall R, wf_rdcop R ->
+  forall roots t, M_PseudoTree.build (graph_of R) = Some (roots, t) ->
+  Permutation (all_owned (dpop_of_built R t)) (cons_ids (dpop_of_built R t)) /\
+  NoDup (cons_ids (dpop_of_built R t)) /\
+  forall k, In k (cons_ids (dpop_of_built R t)) ->
+    exists x, In x (tree_ids (dpop_of_built R t)) /\ In k (owned (dpop_of_built R t) x) /\
+              forall y, In k (owned (dpop_of_built R t) y) -> y = x.
+Proof. exact built_partition_l. Qed.
+
+(* the tree hypothesis of the all-schedules theorems holds for the built tree: forest with converse
+   links and a depth function (PT_valid of C17), kept constraints mention only the node and its
+   ancestors (ownership_lowest), every child is tied to its parent by a cost kept in its subtree
+   (a tree edge is a constraint-graph edge: build_parent_shares_constraint of C17, and the lowest
+   node of that constraint lies in the child's subtree) *)
+Theorem built_tree_valid : forall R, wf_rdcop R ->
+  forall roots t, M_PseudoTree.build (graph_of R) = Some (roots, t) -> dpop_valid (dpop_of_built R t).
+Proof. exact built_valid_l. Qed.
+
+(* the executable checker is complete (with dpop_check_valid: an exact characterisation) ... *)
+Theorem dpop_check_complete : forall P,
+  dpop_check P = true <-> dpop_valid P /\ Permutation (all_owned P) (cons_ids P) /\ NoDup (cons_ids P).
+Proof. exact dpop_check_iff_l. Qed.
+
+(* ... so that it accepts the built tree of every well-formed DCOP: what the correspondence
+   evaluates on every tree pydcop builds is a theorem about the builder model *)
+Theorem built_tree_check : forall R, wf_rdcop R ->
+  forall roots t, M_PseudoTree.build (graph_of R) = Some (roots, t) -> dpop_check (dpop_of_built R t) = true.
+Proof. exact built_check_l. Qed.
+
+(* THE PROPERTY, end to end: for every well-formed DCOP the builder model returns a tree (never out
+   of fuel), one computation per variable, and DPOP on that tree, under EVERY schedule of starts and
+   per-channel FIFO deliveries, never raises and at a complete final configuration has every node
+   finished exactly once with a domain value and an assignment of brute-force optimal cost. *)
+Theorem dpop_on_built_tree : forall R, wf_rdcop R ->
+  exists P, dpop_of R = Some P /\
+    (forall x, In x (tree_ids P) <-> In x (rd_vars R)) /\ NoDup (tree_ids P) /\
+    forall sched,
+      let r := run (dpop_proto P) sched in
+      (forall n k, In (EvRaise n k) (snd r) -> ~ In n (tree_ids P)) /\
+      (complete P (fst r) ->
+         (forall x, In x (tree_ids P) ->
+            s_fin (w_st (nodes (fst r) x)) = true /\
+            count_finished x (snd r) = 1%nat /\ count_selected x (snd r) = 1%nat /\
+            exists v c, s_value (w_st (nodes (fst r) x)) = Some (v, c) /\ In (EvSelect x v c) (snd r) /\
+                        0 <= v < Z.of_nat (dsize P x)) /\
+         let sg := assignment P (fst r) in
+         in_dom (dsize P) sg (tree_ids P) /\
+         (forall a, in_dom (dsize P) a (tree_ids P) -> mle (dc_mode P) (dcop_cost P sg) (dcop_cost P a)) /\
+         is_best (dc_mode P) (map (dcop_cost P) (ext P (tree_ids P) [])) (dcop_cost P sg)).
+Proof. exact dpop_on_built_tree_l. Qed.
+
+(* the same conclusion for the dcop + tree EXTRACTED FROM THE REAL OBJECTS of a run, from the boolean
+   the correspondence evaluates on every case: built_ok P = wf_rdcopb (raw_of P) && constraint ids
+   are positions && the tree part of P is, node by node and in list order, the output of the builder
+   model on the constraint graph of P *)
+Theorem dpop_built_ok_correct : forall P, built_ok P = true ->
+  forall sched,
+    let r := run (dpop_proto P) sched in
+    (forall n k, In (EvRaise n k) (snd r) -> ~ In n (tree_ids P)) /\
+    (complete P (fst r) ->
+       (forall x, In x (tree_ids P) ->
+          s_fin (w_st (nodes (fst r) x)) = true /\
+          count_finished x (snd r) = 1%nat /\ count_selected x (snd r) = 1%nat /\
+          exists v c, s_value (w_st (nodes (fst r) x)) = Some (v, c) /\ In (EvSelect x v c) (snd r) /\
+                      0 <= v < Z.of_nat (dsize P x)) /\
+       let sg := assignment P (fst r) in
+       in_dom (dsize P) sg (tree_ids P) /\
+       (forall a, in_dom (dsize P) a (tree_ids P) -> mle (dc_mode P) (dcop_cost P sg) (dcop_cost P a)) /\
+       is_best (dc_mode P) (map (dcop_cost P) (ext P (tree_ids P) [])) (dcop_cost P sg)).
+Proof. exact built_ok_correct_l. Qed.
+
+(* non-vacuity: 5 variables, a triangle (-> a back edge / pseudo-parent), a ternary constraint, a
+   unary constraint and an isolated variable (two components); the hypothesis holds, the builder
+   model returns a tree with a pseudo-parent, all variables started then every channel served
+   round-robin is a complete schedule, and the selected assignment has the brute-force optimum *)
+Definition ex_R : rdcop := mkRD Min [0; 1; 2; 3; 4] [(0,2);(1,2);(2,2);(3,3);(4,2)]
+  [(0,[0;0]);(1,[1;0]);(2,[0;0]);(3,[0;2;0]);(4,[3;1])]
+  [mkRel [0;1] (Node [Node [Leaf 3; Leaf 1]; Node [Leaf 0; Leaf 4]]);
+   mkRel [1;2] (Node [Node [Leaf 2; Leaf 5]; Node [Leaf 0; Leaf 2]]);
+   mkRel [2;0] (Node [Node [Leaf 1; Leaf 6]; Node [Leaf 4; Leaf 0]]);
+   mkRel [3;1;2] (Node [Node [Node [Leaf 0; Leaf 2]; Node [Leaf 1; Leaf 1]];
+                        Node [Node [Leaf 5; Leaf 0]; Node [Leaf 2; Leaf 2]];
+                        Node [Node [Leaf 1; Leaf 1]; Node [Leaf 0; Leaf 3]]]);
+   mkRel [2] (Node [Leaf 1; Leaf 0])].
+Definition ex_pairs : list (@action) :=
+  flat_map (fun a => map (fun b => Deliver a b) [0; 1; 2; 3; 4]) [0; 1; 2; 3; 4].
+Definition ex_sched2 : list (@action) :=
+  map Start [4; 3; 2; 1; 0] ++ ex_pairs ++ ex_pairs ++ ex_pairs ++ ex_pairs ++ ex_pairs ++ ex_pairs
+    ++ ex_pairs ++ ex_pairs.
+
+Example dpop_on_built_tree_nonvacuous :
+  wf_rdcopb ex_R = true /\
+  exists P, dpop_of ex_R = Some P /\ built_ok P = true /\
+    map (fun n => (pn_id n, pn_parent n, pn_pps n)) (dc_tree P)
+      = [(2, None, []); (1, Some 2, []); (0, Some 1, [2]); (3, Some 1, [2]); (4, None, [])] /\
+    completeb P (fst (run (dpop_proto P) ex_sched2)) = true /\
+    assignment P (fst (run (dpop_proto P) ex_sched2)) = [(2, 0); (1, 1); (0, 0); (3, 2); (4, 1)] /\
+    dcop_cost P (assignment P (fst (run (dpop_proto P) ex_sched2))) = 4 /\
+    lbest Min (map (dcop_cost P) (ext P (tree_ids P) [])) = 4.
+Proof.
+  split; [vm_compute; reflexivity|].
+  eexists. split; [vm_compute; reflexivity|].
+  vm_compute. repeat split; reflexivity.
+Qed.
+
+(* ---- the same WITHOUT "no constraint has an empty scope" (P_DpopBuilt4.v).  A zero-ary constraint (a
+   constant) is attached to no node by the builder and ignored by DPOP: the ownership filter keeps
+   exactly the constraints with a non-empty scope, once each, the cost of the DCOP is the cost DPOP
+   optimises plus the constant const_cost, and optimal assignments are the same.  Hypothesis left:
+   well-formed constraint graph and non-empty domains. *)
+From PyDcop Require Import P_DpopBuilt4.
+
+Theorem dpop_cost_offset_zeroary : forall R,
+  wf_graph (graph_of R) /\ (forall x, In x (rd_vars R) -> (0 < rd_size R x)%nat) ->
+  forall roots t, M_PseudoTree.build (graph_of R) = Some (roots, t) ->
+  dpop_valid (dpop_of_built R t) /\
+  (forall a, dcop_cost (dpop_of_built R t) a
+             = total_cost (dpop_of_built R t) a + const_cost (dpop_of_built R t)) /\
+  dpop_correct (dpop_of_built R t).
+Proof. exact built_correct0_l. Qed.
+
+Theorem dpop_on_built_tree_general : forall R,
+  wf_graph (graph_of R) /\ (forall x, In x (rd_vars R) -> (0 < rd_size R x)%nat) ->
+  exists P, dpop_of R = Some P /\
+    (forall x, In x (tree_ids P) <-> In x (rd_vars R)) /\ NoDup (tree_ids P) /\
+    forall sched,
+      let r := run (dpop_proto P) sched in
+      (forall n k, In (EvRaise n k) (snd r) -> ~ In n (tree_ids P)) /\
+      (complete P (fst r) ->
+         (forall x, In x (tree_ids P) ->
+            s_fin (w_st (nodes (fst r) x)) = true /\
+            count_finished x (snd r) = 1%nat /\ count_selected x (snd r) = 1%nat /\
+            exists v c, s_value (w_st (nodes (fst r) x)) = Some (v, c) /\ In (EvSelect x v c) (snd r) /\
+                        0 <= v < Z.of_nat (dsize P x)) /\
+         let sg := assignment P (fst r) in
+         in_dom (dsize P) sg (tree_ids P) /\
+         (forall a, in_dom (dsize P) a (tree_ids P) -> mle (dc_mode P) (dcop_cost P sg) (dcop_cost P a)) /\
+         is_best (dc_mode P) (map (dcop_cost P) (ext P (tree_ids P) [])) (dcop_cost P sg)).
+Proof. exact dpop_on_built_tree0_l. Qed.
+
+(* non-vacuity: the instance above plus the constant 7; the checker dpop_check rejects it (the
+   constant is kept by no node), the general theorem applies, the optimum moves from 4 to 11 *)
+Definition ex_R0 : rdcop :=
+  mkRD (rd_mode ex_R) (rd_vars ex_R) (rd_dom ex_R) (rd_vcost ex_R) (rd_cons ex_R ++ [mkRel [] (Leaf 7)]).
+Example dpop_on_built_tree_general_nonvacuous :
+  wf_graphb (graph_of ex_R0) = true /\ wf_rdcopb ex_R0 = false /\
+  exists P, dpop_of ex_R0 = Some P /\ dpop_check P = false /\ const_cost P = 7 /\
+    completeb P (fst (run (dpop_proto P) ex_sched2)) = true /\
+    assignment P (fst (run (dpop_proto P) ex_sched2)) = [(2, 0); (1, 1); (0, 0); (3, 2); (4, 1)] /\
+    dcop_cost P (assignment P (fst (run (dpop_proto P) ex_sched2))) = 11 /\
+    lbest Min (map (dcop_cost P) (ext P (tree_ids P) [])) = 11.
+Proof.
+  split; [vm_compute; reflexivity|]. split; [vm_compute; reflexivity|].
+  eexists. split; [vm_compute; reflexivity|].
+  vm_compute. repeat split; reflexivity.
+Qed.
